@@ -156,5 +156,31 @@ def check_case(case):
     if not (abs(float(la_t) - lat) <= 1e-9 and abs(float(lo_t) - lon) <= 1e-9):
         out.bad(f"tower configured at {(lat, lon)} -> stored local coordinates {(tx, ty)!r} -> {(float(la_t), float(lo_t))}")
 
+    # coordinates that arrive single-precision-typed (a float32 column of a tower table): the transform works on the value
+    # it is given, in double precision - the result is that of the same value passed as a Python float
+    la32, lo32 = np.float32(lat), np.float32(lon)
+    x32, y32 = latlon_to_xy(la32, lo32, rl, ro)
+    xw, yw = latlon_to_xy(float(la32), float(lo32), rl, ro)
+    if not (abs(float(x32) - xw) <= 1e-6 and abs(float(y32) - yw) <= 1e-6):
+        out.bad(f"latlon_to_xy(np.float32 lat/lon) = {(float(x32), float(y32))} differs from the same values passed as Python "
+                f"floats {(xw, yw)}")
+    rl32, ro32 = np.float32(rl), np.float32(ro)
+    x33, y33 = latlon_to_xy(lat, lon, rl32, ro32)
+    xv, yv = latlon_to_xy(lat, lon, float(rl32), float(ro32))
+    if not (abs(float(x33) - xv) <= 1e-6 and abs(float(y33) - yv) <= 1e-6):
+        out.bad(f"latlon_to_xy with a np.float32 reference = {(float(x33), float(y33))} differs from the same reference passed "
+                f"as Python floats {(xv, yv)}")
+
+    # a configuration re-built around another origin (dataclasses.replace re-runs the placement): the towers it re-uses
+    # are placed relative to the NEW origin
+    import dataclasses
+
+    rl2, ro2 = rl + 0.001, ro - 0.002
+    cfg2 = dataclasses.replace(cfg, domain=dataclasses.replace(cfg.domain, ref_lat=rl2, ref_lon=ro2))
+    ex2, ey2 = latlon_to_xy(lat, lon, rl2, ro2)
+    if not (abs(float(cfg2.towers[0].x) - ex2) <= 1e-6 and abs(float(cfg2.towers[0].y) - ey2) <= 1e-6):
+        out.bad(f"configuration re-built with origin {(rl2, ro2)}: tower stored at {(cfg2.towers[0].x, cfg2.towers[0].y)!r}, "
+                f"its lat/lon are at {(ex2, ey2)} from that origin")
+
     out.nontrivial = d >= 10.0 and (b % 90.0) != 0.0
     return out
